@@ -520,6 +520,7 @@ C17_Step(s, e) ==
       IN (failedOps # {}) =>
            /\ NT(<<"C17", Cardinality(failedOps), e.res.nErrs>>)
            /\ AllOK(StatusWrites(e, "ERS")) => e.res.err        \* reflected in the error the sync reports ...
+           /\ AllOK(StatusWrites(e, "ERS")) => e.res.nErrs >= Cardinality(failedOps)   \* ... every one of them
            /\ (AllOK(StatusWrites(e, "ERS")) /\ FullSync(e)) =>   \* ... and in the conditions
                 (r2.conds.ReconcileError.true \/ (r2.conds.PodsCleanupDone.present /\ ~r2.conds.PodsCleanupDone.true))
 
@@ -568,6 +569,17 @@ C19_Cmd(s, e) ==
                 [] cmd = "unfreeze" ->
                      /\ ~d.hasCanary /\ onePatch /\ RestSame(s, e.state, d.key) /\ e.state.rs = s.rs /\ d2 = [d EXCEPT !.frozen = FALSE]
                 [] OTHER -> FALSE
+         \* a refusal is justified: the precondition does not hold, or the command would change nothing
+         /\ refused =>
+              CASE cmd = "canary-pause"    -> ~canaryOK \/ d.cPaused
+                [] cmd = "canary-unpause"  -> ~canaryOK \/ ~d.cPaused
+                [] cmd = "canary-validate" -> ~d.hasCanary \/ d.cValid = d.canaryRS
+                [] cmd = "canary-fail"     -> ~canaryOK \/ ~HasRS(s, d.canaryRS)
+                [] cmd = "ru-pause"        -> d.hasCanary \/ d.ruPaused
+                [] cmd = "ru-unpause"      -> d.hasCanary \/ ~d.ruPaused
+                [] cmd = "freeze"          -> d.hasCanary \/ d.frozen
+                [] cmd = "unfreeze"        -> d.hasCanary \/ ~d.frozen
+                [] OTHER -> TRUE
          \* a command whose precondition does not hold refuses to act
          /\ (cmd \in {"canary-pause", "canary-unpause", "canary-fail"} /\ ~canaryOK) => refused
          /\ (cmd = "canary-validate" /\ ~d.hasCanary) => refused
